@@ -6,7 +6,8 @@ package ecies
 // C15: the handshake packet of an unauthenticated connection is decrypted with the node key before anything else is known
 // about the sender (network/p2p readHandshakeBuf -> Decrypt -> symDecrypt); whoever knows the node's public id can produce a
 // valid MAC, so the ciphertext body handed to symDecrypt is attacker-chosen in length.
-//@ func type:cipherFunc   trusted
+// the cipher constructor stored in the parameter set (aes.NewCipher) only reads its key: assumed
+//@ func field:ECIESParams.Cipher   trusted
 //@   modifies nothing
 //@ func symDecrypt
 //@   props C15
